@@ -72,6 +72,11 @@ LEVELS = {
         "note": "trusted: interpolate library abstract; subset model only for the correspondence",
         "technique": "Coq proof: multiset characterisation of the walkers + permutation-invariance; generated scope-table Tie; differential correspondence",
     },
+    "C08": {
+        "text": "Coq theorems: decoding a mapping yields its keys in first-yield order (Set keeps positions; merged pairs are yielded where the merge key stands and keep their relative order), the env block keeps document order through parse and marshal, plugins written as one mapping come out in mapping order, every mapping nested in unknown fields / unknown steps keeps its order in JSON; merge-position example by computation. Correspondence compares member order at every order-significant position for mappings of up to 40 tricky keys in JSON and YAML output, plus programmatic ordered-map encode/decode round trips.",
+        "note": "trusted: text layer; YAML emitter order is observed, not modelled",
+        "technique": "Coq proof: order lemmas over the decode fold and the marshal model; differential correspondence with member-order observables",
+    },
 }
 
 REASONS_PENDING = "check not built yet in this revision (work in progress; see DESIGN.md §10 build order)"
